@@ -341,9 +341,21 @@ Fixpoint hdr_get (hs : list (list Z * list Z)) (k : list Z) : option (list Z) :=
   end.
 
 (* --------------------------------------- read_lines_to_outerboundary *)
-(* if delim == b"\r": line = delim + line; delim = b"" *)
-Definition carry (delim line0 : bytes) : bytes * bytes :=
-  if lz_eqb delim [13] then (13 :: line0, []) else (line0, delim).
+(* the block  if delim == b"\r": ...  : the line, delim and last_line_lfend
+   it leaves, or [CSkip] for its `continue` (the line was just the LF of a
+   CRLF that the size limit divided) *)
+Inductive carried :=
+  | CLine (line delim : bytes) (lfend : bool)
+  | CSkip.
+Definition carry (delim : bytes) (lfend : bool) (line0 : bytes) : carried :=
+  if lz_eqb delim [13] then
+    match line0 with
+    | c :: r =>
+        if c =? 10 then (if is_nil r then CSkip else CLine r [13; 10] true)
+        else CLine (13 :: line0) [] lfend
+    | [] => CLine (13 :: line0) [] lfend
+    end
+  else CLine line0 delim lfend.
 
 (* the boundary test; Some 0: next_boundary, Some 1: last_boundary *)
 Definition boundary_hit (nb lb line : bytes) (lfend : bool) : option Z :=
@@ -371,17 +383,21 @@ Definition split_end (line : bytes) : bytes * bytes * bool :=
 
 Inductive step_res :=
   | SBreak (done : Z)
-  | SCont (piece delim : bytes) (lfend : bool).
+  (* piece = the argument of _write, None when the round ended in `continue` *)
+  | SCont (piece : option bytes) (delim : bytes) (lfend : bool).
 
 (* one round of the while loop after a non-empty line was read *)
 Definition rlob_step (nb lb delim : bytes) (lfend : bool) (line0 : bytes)
   : step_res :=
-  let '(line, odelim) := carry delim line0 in
-  match boundary_hit nb lb line lfend with
-  | Some d => SBreak d
-  | None =>
-      let '(body, delim', lfend') := split_end line in
-      SCont (odelim ++ body) delim' lfend'
+  match carry delim lfend line0 with
+  | CSkip => SCont None [13; 10] true
+  | CLine line odelim lfend1 =>
+      match boundary_hit nb lb line lfend1 with
+      | Some d => SBreak d
+      | None =>
+          let '(body, delim', lfend') := split_end line in
+          SCont (Some (odelim ++ body)) delim' lfend'
+      end
   end.
 
 (* if self.limit is not None and 0 <= self.limit <= _read *)
@@ -456,7 +472,9 @@ Section Parser.
             match rlob_step nb lb delim lfend line0 with
             | SBreak d => RDone pieces d nread1 s1
             | SCont piece delim' lfend' =>
-                rlob f nb lb limit (pieces ++ [piece]) delim' lfend' nread1 s1
+                rlob f nb lb limit
+                     (match piece with Some p => pieces ++ [p] | None => pieces end)
+                     delim' lfend' nread1 s1
             end
     end.
 
@@ -724,12 +742,7 @@ Section Contract.
     gr_line : forall lim s, L lim -> P s -> no_inner_crlf (fst (rl lim s));
     (* a piece that does not end with LF is a size cut or the end of input *)
     gr_full : forall lim s, L lim -> P s -> ~ ends_lf (fst (rl lim s)) ->
-      0 <= lim <= len (fst (rl lim s)) \/ rem (snd (rl lim s)) = [];
-    (* when a cut separates CR from LF, the LF comes back on its own *)
-    gr_lone_lf : forall lim lim' s, L lim -> L lim' -> P s -> lim' <> 0 ->
-      (exists z, fst (rl lim s) = z ++ [13]) ->
-      (exists t, rem (snd (rl lim s)) = 10 :: t) ->
-      fst (rl lim' (snd (rl lim s))) = [10]
+      0 <= lim <= len (fst (rl lim s)) \/ rem (snd (rl lim s)) = []
   }.
 End Contract.
 
